@@ -7,7 +7,7 @@ FILTER="${1:-.}"
 for d in /verif/seeded/*/; do
   id=$(basename "$d")
   echo "$id" | grep -Eq "$FILTER" || continue
-  chk=$(python3 -c "import json;print(json.load(open('$d/meta.json'))['detected_by']['check'].split()[0])")
+  chk=$(python3 -c "import json;print(json.load(open('$d/meta.json'))['detected_by']['check'].split()[0].strip(','))")
   s=$(date +%s)
   out=$(LINES_MAX=4 timeout 2400 tools/trymutant.sh "$d/patch.diff" "$chk" quick 2>&1)
   rc=$(echo "$out" | grep -o "EXIT=[0-9]*" | tail -1)
